@@ -10,8 +10,11 @@ CHECKS = {
          "Proof over all argument values, ids, keys, sessions and clock readings under assumptions A1-A5: every value reaching writer.write is unhexlify(sign(p)), the signature covers all preceding bytes, fef0/f0fe sit at fixed offsets, and bytes 2-3 denote LE16 of the symbolic frame length. The numeric CRC is not evaluated (C04 proves the signer's normal form).", "§4 C01"),
  "C04": ("proof", "normal-form derivation of the signer by abstract interpretation, syntactic comparison with the protocol term",
          "Proof by normal form: the signer's abstract result equals p ++ LE16(crc_hqx(p,0x1021)) ++ LE16(crc_hqx(LE16bytes ++ 0x30*32,0x1021)) for a symbolic p; invalid hex provably raises before any output. crc_hqx itself is trusted.", "§4 C04"),
-}
 
+ "C02": ("translation_validation", "symbolic frames from abstract interpretation compared with a reference byte layout; role/provenance check per hole; who-may-store sweep",
+         "Translation validation: for every operation the symbolic command frame (all argument values at once) is compared byte-for-byte with spec/wire_frames.json, every hole is traced to the same-named argument through its encoder's normal form and guard (timer 60*minutes LE32, auto-off [3600,86340], name UTF-8 padded to 32, position two hex digits, day mask, start/end), rejections are shown to raise before the command frame is written. Float arithmetic inside timedelta handling and the op-code values themselves (no independent oracle) are not decided.", "§4 C02"),
+}
+CHECKS.update(_MORE) if False else None
 NOT_YET = {}
 
 def main():
